@@ -6,7 +6,13 @@ import c02
 
 CONFIGS = ['prod']
 EXPLANATION = (
-    'SEM: the acknowledgement counting interpreted for two selected nodes and all 16 combinations of replica outcomes (one request per node, Ok exactly whe'
+    'SEM, API level (abstract interpretation of the MIR, no code runs): each of put / put_many / del / del_many of the replicated store is interpreted end to end with node '
+    'selection, the node clock, the local keyspace actor, the distributor queue and the RPC wire as modelled effects, for seven scenarios (selection refused; no replica selected; '
+    'local write fails; the two selected replicas answer ok/ok, err/ok, ok/err, err/err): nothing is written or sent when selection is refused, nothing is queued or sent when the '
+    'local write fails, otherwise the local actor gets exactly the operation under the live-path source, the same operation is queued once as the matching mutation, every '
+    'selected replica is sent it exactly once with the stamp of the local write, the replicas are selected for the caller\'s own level, and Ok is returned exactly when every '
+    'selected replica acknowledged. Subsumes W1, W2, W3 and W5, which are evaluated only when a construct is outside the interpreter\'s vocabulary. '
+    'SEM, counting function: the acknowledgement counting interpreted for two selected nodes and all 16 combinations of replica outcomes (one request per node, Ok exactly whe'
     'n all acknowledged). '
     'Decided clauses: W1 in each of the four client API functions the replica distribution (whose result is the function\'s result) is '
     'dominated by the success edge of the local keyspace write; W2 the replica set handed to the distribution is the selector\'s answer '
